@@ -534,7 +534,13 @@ func (d *resolveUndoDecoder) readEntry() (*ResolveUndoEntry, error) {
 		}
 	}
 
-	for s := range e.Stages {
+	// The object ids follow in stage order (1, 2, 3), present stages only.
+	for i := range 3 {
+		s := Stage(i + 1)
+		if _, ok := e.Stages[s]; !ok {
+			continue
+		}
+
 		var h plumbing.Hash
 		h.ResetBySize(d.h.Size())
 		if _, err := h.ReadFrom(d.r); err != nil {
